@@ -4485,7 +4485,20 @@ class Fparser2Reader():
                                           ("dim", Literal(str(idx),
                                                           integer_type))]))
             else:
-                loop.addchild(mask_shape[idx-1].upper.copy())
+                # The shape gives the (declared) bounds of this dimension.
+                # The loop is over the *extent*, which is only equal to the
+                # upper bound when the lower bound is unity.
+                bounds = mask_shape[idx-1]
+                if (isinstance(bounds.lower, Literal) and
+                        bounds.lower.value == "1"):
+                    loop.addchild(bounds.upper.copy())
+                else:
+                    extent = BinaryOperation.create(
+                        BinaryOperation.Operator.SUB,
+                        bounds.upper.copy(), bounds.lower.copy())
+                    loop.addchild(BinaryOperation.create(
+                        BinaryOperation.Operator.ADD, extent,
+                        Literal("1", integer_type)))
 
             # Add loop increment
             loop.addchild(Literal("1", integer_type))
